@@ -47,7 +47,7 @@ CondToks(c) ==
     [] OTHER -> <<TK("id", "currentdate"), TK("tag", ":zone"), S("+0100"), TK("tag", c.t1)>>
                 \o (IF c.t2 = "" THEN <<>> ELSE <<S(c.t2)>>) \o VToks(c.v1) \o VToks(AsList(c.v2))
 
-\* action record: [k, tags (set), v1 (string class or ""), sub (subject), days ("" or number text)]
+\* action record: [k, tags (set), v1 (string class or ""), sub (subject), days, secs (number texts)]
 ActToks(a) ==
   CASE a.k = "fileinto" ->
          <<TK("id", "fileinto")>>
@@ -61,8 +61,8 @@ ActToks(a) ==
     [] a.k = "vacation" ->
          <<TK("id", "vacation")>>
          \o (IF ":subject" \in a.tags THEN <<TK("tag", ":subject"), S(a.sub)>> ELSE <<>>)
-         \o (IF ":days" \in a.tags THEN <<TK("tag", ":days"), TK("num", "7")>> ELSE <<>>)
-         \o (IF ":seconds" \in a.tags THEN <<TK("tag", ":seconds"), TK("num", "3600")>> ELSE <<>>)
+         \o (IF ":days" \in a.tags THEN <<TK("tag", ":days"), TK("num", a.days)>> ELSE <<>>)
+         \o (IF ":seconds" \in a.tags THEN <<TK("tag", ":seconds"), TK("num", a.secs)>> ELSE <<>>)
          \o (IF ":from" \in a.tags THEN <<TK("tag", ":from"), S("me@example.org")>> ELSE <<>>)
          \o (IF ":handle" \in a.tags THEN <<TK("tag", ":handle"), S("h1")>> ELSE <<>>)
          \o (IF ":mime" \in a.tags THEN <<TK("tag", ":mime")>> ELSE <<>>)
